@@ -193,11 +193,11 @@ func (t *Terms) run() {
 		return
 	}
 	t.computeRPO()
-	for _, p := range t.fn.Params {
-		t.val[p] = "$" + p.Name()
+	for i, p := range t.fn.Params {
+		t.val[p] = "$" + strconv.Itoa(i)
 	}
-	for _, fv := range t.fn.FreeVars {
-		t.val[fv] = "^" + fv.Name()
+	for i, fv := range t.fn.FreeVars {
+		t.val[fv] = "^" + strconv.Itoa(i)
 	}
 	for _, b := range t.rpo {
 		var in *memState
@@ -305,7 +305,7 @@ func (t *Terms) invalidateLoop(h *ssa.BasicBlock, m *memState) {
 					continue
 				}
 				if p, ok := x.Addr.(*ssa.Parameter); ok {
-					cell := "*($" + p.Name() + ")"
+					cell := "*(" + t.Term(p) + ")"
 					m.cells[cell] = memEntry{term: fmt.Sprintf("mu(%s,%s)", tag, cell)}
 					continue
 				}
@@ -1038,8 +1038,13 @@ func (t *Terms) compute(v ssa.Value) string {
 		}
 		return x.Value.ExactString()
 	case *ssa.Parameter:
-		return "$" + x.Name()
+		return "$" + strconv.Itoa(paramIndex(t.fn, x))
 	case *ssa.FreeVar:
+		for i, fv := range t.fn.FreeVars {
+			if fv == x {
+				return "^" + strconv.Itoa(i)
+			}
+		}
 		return "^" + x.Name()
 	case *ssa.Global:
 		return "&@" + x.Pkg.Pkg.Name() + "." + x.Name()
@@ -1241,19 +1246,14 @@ func (t *Terms) FieldDefAt(at ssa.Instruction, base, field string) ssa.Instructi
 	return nil
 }
 
-var paramRe = regexp.MustCompile(`\$[A-Za-z_][A-Za-z0-9_]*`)
 
-// Canon renames parameters to their index ($0, $1, ...) so rules are insensitive to
-// parameter names.
-func (t *Terms) Canon(term string) string {
-	idx := map[string]int{}
-	for i, p := range t.fn.Params {
-		idx["$"+p.Name()] = i
+// Canon is the identity: parameters are already named by index ($0, $1, ...).
+func (t *Terms) Canon(term string) string { return term }
+
+// eqTerm builds the term of `a == b` with the operand order used by compute.
+func eqTerm(a, b string) string {
+	if a > b {
+		a, b = b, a
 	}
-	return paramRe.ReplaceAllStringFunc(term, func(s string) string {
-		if i, ok := idx[s]; ok {
-			return "$" + strconv.Itoa(i)
-		}
-		return s
-	})
+	return "(" + a + " == " + b + ")"
 }
